@@ -17,11 +17,51 @@ def build(maxthreads, tsan=False):
     return replayers.build(name, srcs, extra=extra)
 
 
+def build_search(maxthreads):
+    name = 'search_replay%d' % maxthreads
+    srcs = [os.path.join(ROOT, 'replay', 'search_replay.cpp')] + sorted(glob.glob(os.path.join(replayers.REPO, 'src/thread/*.cpp'))) + \
+        sorted(glob.glob(os.path.join(replayers.REPO, 'src/thread/component/*.cpp')))
+    extra = ['-include', os.path.join(ROOT, 'replay', 'atomic_shim.hpp'), '-I' + os.path.join(ROOT, 'replay'),
+             '-UDBGROUP_MAX_THREAD_NUM', '-DDBGROUP_MAX_THREAD_NUM=%d' % maxthreads]
+    return replayers.build(name, srcs, extra=extra)
+
+
+# bounded random search for a failing history on the real code, judged by the property statements (one run per check)
+SEARCH = {'idm': ('id-search', 3, 'C05 C14 C15'), 'epoch': ('epoch-search', 4, 'C04 C16 C17 C20')}
+_search_cache = {}
+
+
+def search(comp_name):
+    if comp_name in _search_cache:
+        return _search_cache[comp_name]
+    sc, k, props = SEARCH[comp_name]
+    exe, err = build_search(k)
+    if exe is None:
+        res = {'reproduced': False, 'detail': 'search replayer build failed: ' + err}
+    else:
+        seed = int(os.environ.get('VERIF_SEED', '0') or 0) + 1
+        res = {'reproduced': False, 'detail': '%s(K=%d): no failing history within the budget' % (sc, k)}
+        for sd in (seed, seed + 1):
+            rc, out = replayers.run([exe, sc, str(sd), '12'], 120)
+            if rc == 1:
+                res = {'reproduced': True, 'command': 'search_replay%d %s %d 12' % (k, sc, sd),
+                       'input': {'scenario': sc, 'DBGROUP_MAX_THREAD_NUM': k, 'seed': sd},
+                       'observed': [l[:600] for l in out.split('\n') if l.strip()][:6],
+                       'how': 'bounded random search on the unmodified sources (g++ -include /verif/replay/atomic_shim.hpp, random perturbation at every atomic operation); '
+                              'histories are judged by the statements of %s, so the failing history found may exercise the defect through another clause than the failed obligation' % props}
+                break
+    _search_cache[comp_name] = res
+    return res
+
+
 SCENARIOS = [
     # (component, group regex, obligation regex, scenario, DBGROUP_MAX_THREAD_NUM)
     ('idm', r'HeartBeater_dtor|GetHeartBeater', r'exit-order|heartbeat|flag', 'id-exit-order', 1),
     ('epoch', r'CreateEpochGuard|Forward|Collect', r'C04|heartbeat|pinned|tracked', 'epoch-id-reuse', 1),
-    ('epoch', r'GetProtectedEpochs|EnterEpoch', r'C17|node|list', 'enter-epoch-stall', 4),
+    ('epoch', r'EpochGuard_operator_assign', r'keeps-its-pin|move-transfers', 'epoch-guard-reassign', 4),
+    ('epoch', r'nested_guards', r'nested', 'epoch-nested-guard', 4),
+    ('epoch', r'GetProtectedEpochs$|EnterEpoch', r'pre\.node-of-pinned-epoch-linked|pins-an-epoch', 'enter-epoch-stall', 4),
+    ('epoch', r'GetProtectedEpochs', r'lookup|right-node|guard-and-its-list', 'lookup-stall', 4),
     ('mcs', r'LockX|LockSIX', r'G\.node|G\.link|link', 'mcs-lost-link', 4),
     ('mcs', r'Unlock|Guard', r'recycle|life\.|C12', 'mcs-node-leak', 4),
 ]
@@ -42,4 +82,8 @@ def attempt(prop, comp_name, group, ob, rep):
             return {'reproduced': True, 'command': 'sched_replay%d %s' % (k, sc), 'input': {'scenario': sc, 'DBGROUP_MAX_THREAD_NUM': k},
                     'observed': [l for l in out.split('\n') if l.strip()][:8],
                     'how': 'g++ -include /verif/replay/atomic_shim.hpp (every std::atomic operation of the unmodified sources is a scheduling point); the counterexample interleaving is driven by /verif/replay/sched.hpp'}
+    if comp_name in SEARCH:
+        r = dict(search(comp_name))
+        r['tried'] = tried
+        return r
     return {'reproduced': False, 'detail': 'no scheduled scenario reproduced the failure', 'tried': tried}
